@@ -79,8 +79,11 @@ class GenericCallAdapter(Adapter):
     def items(cls, value, node):
         new_args, new_kwargs = cls.arguments(value)
 
+        if not isinstance(node, ast.Call):
+            # the value is not written as a call (a variable for example)
+            node = None
+
         if node is not None:
-            assert isinstance(node, ast.Call)
             assert all(kw.arg for kw in node.keywords)
             kw_arg_node = {kw.arg: kw.value for kw in node.keywords if kw.arg}.get
 
